@@ -3300,6 +3300,7 @@ class Face3D(Base2DIn3D):
     def __copy__(self):
         _new_face = Face3D(self.boundary, self.plane, self.holes,
                            enforce_right_hand=False)
+        _new_face._vertices = self._vertices  # keep the way holes were merged
         self._transfer_properties(_new_face)
         _new_face._polygon2d = self._polygon2d
         _new_face._mesh2d = self._mesh2d
